@@ -120,6 +120,64 @@ def validators_fit(rep):
     return len(table)
 
 
+def pair_components(rep, enc):
+    """C16.pair: in a branch of _encode_value() that serves a sequence value (`isinstance(value, (list, tuple))`) every returned text
+    is computed from every component the branch reads: a return that encodes one component only drops the other from the element
+    string, and decoding gives a value of another kind (a date instead of a pair of dates)."""
+    par = enc.args.args[2].arg if len(enc.args.args) > 2 else 'value'
+    n_ = 0
+    for br in ast.walk(enc):
+        if not (isinstance(br, ast.If) and any(isinstance(c, ast.Call) and src(c.func) == 'isinstance' and c.args and src(c.args[0]) == par
+                                               and any(w in src(c.args[1]) for w in ('list', 'tuple')) for c in ast.walk(br.test))):
+            continue
+        env = {}
+
+        def comps(e):
+            out = set()
+            for x in ast.walk(e):
+                if isinstance(x, ast.Subscript) and isinstance(x.value, ast.Name) and x.value.id == par and isinstance(x.slice, (ast.Constant, ast.UnaryOp)):
+                    try:
+                        out.add(ast.literal_eval(x.slice))
+                    except Exception:
+                        out.add('*')
+                elif isinstance(x, ast.Name) and x.id in env:
+                    out |= env[x.id]
+            # the whole sequence used as such (iteration, unpacking, join)
+            for x in ast.walk(e):
+                if isinstance(x, ast.Name) and x.id == par:
+                    sub = any(isinstance(p_, ast.Subscript) and p_.value is x for p_ in ast.walk(e))
+                    if not sub:
+                        out.add('*')
+            return out
+        body = list(br.body)
+        for st in [x for b in body for x in ast.walk(b)]:
+            if isinstance(st, ast.Assign):
+                if len(st.targets) == 1 and isinstance(st.targets[0], ast.Tuple) and isinstance(st.value, ast.Name) and st.value.id == par:
+                    for i, t in enumerate(st.targets[0].elts):
+                        if isinstance(t, ast.Name):
+                            env[t.id] = {i}
+                else:
+                    c = comps(st.value)
+                    for t in st.targets:
+                        if isinstance(t, ast.Name) and t.id != par:
+                            env[t.id] = env.get(t.id, set()) | c
+        rets = [x for b in body for x in ast.walk(b) if isinstance(x, ast.Return) and x.value is not None]
+        used = [(r_, comps(r_.value)) for r_ in rets]
+        allc = set()
+        for _r, c in used:
+            allc |= {(-1 if k == -1 else k) for k in c}
+        norm = lambda c: {1 if k == -1 else k for k in c}
+        every = norm(allc) - {'*'}
+        for r_, c in used:
+            n_ += 1
+            ok = '*' in c or norm(c) >= every
+            rep.check(ok, 'C16.pair', FILE, '_encode_value', src(r_)[:140], r_.lineno,
+                      'in the branch for a sequence value (`if %s`) this return encodes component(s) %s only, the branch reads %s: the other component is '
+                      'dropped from the element string and decoding it gives a value of another kind' % (src(br.test)[:80], sorted(norm(c) - {'*'}), sorted(every)),
+                      what='every component of the pair reaches the returned text')
+    return n_
+
+
 def check(tier):
     rep = new_report(tier)
     analyse(rep)
@@ -127,6 +185,7 @@ def check(tier):
     if nv < 3:
         rep.error('C16.validator: %d validator entries found, 3 confirmed on the reference tree' % nv)
     rep.expect_at_least('C16.length', 40, '(format, type) pairs')
+    rep.expect_at_least('C16.pair', 2, 'returns of sequence-value branches of _encode_value()')
     rep.not_decided = ['equality of the decoded identifier-to-value mapping after a round trip (value arithmetic of decimals, dates with day 00)',
                        'parentheses handling (compact() deletes them before info())']
     return rep.finish()
@@ -218,6 +277,7 @@ def analyse(rep):
     rep.unit('application identifiers', len(reg.entries))
     enc, dec, mx, pad = funcs['_encode_value'], funcs['_decode_value'], funcs['_max_length'], funcs['_pad_value']
     enc_types = branches_on(enc, enc.args.args[1].arg)
+    pair_components(rep, enc)
     dec_types = branches_on(dec, dec.args.args[1].arg)
     # --- types
     for t in sorted({t for _f, t in pairs}):
